@@ -388,7 +388,7 @@ def check_c07(tier):
     replayed += real_eviction(V, 2 if tier == "quick" else 12)
     if not os.environ.get("VERIF_REPLAY"):
         import lsphist
-        n_lsp = lsphist.c07_sessions(V, tier)
+        n_lsp = lsphist.c07_sessions(V, tier) + lsphist.c07_sessions(V, tier, family="chain")
         replayed += n_lsp
         V.notes["lsp_history_sessions"] = n_lsp
     import tracecheck
